@@ -106,7 +106,50 @@ impl Rng {
     pub fn word(&mut self) -> u32 {
         self.next() as u32
     }
+    /// A count that is usually small (`below(small)`) and now and then far beyond what small examples reach
+    /// (thresholds: 8, 16, 32, 64, 128, 256 and their neighbours).  Instruction level (operand repetitions): at most
+    /// one big draw per generated instruction (`scale_reset_inst`), so that nested counts cannot multiply.
+    pub fn count(&mut self, small: usize) -> usize {
+        if INST_BIG_LEFT.with(|b| b.get()) > 0 && self.chance(1, 24) {
+            INST_BIG_LEFT.with(|b| b.set(b.get() - 1));
+            *self.pick(BIG_COUNTS)
+        } else {
+            self.below(small)
+        }
+    }
+    /// The same at module level (elements of a section, functions, parameters, blocks, instructions of a block): at
+    /// most one big draw per generated module / history (`scale_reset_mod`).
+    pub fn count_mod(&mut self, small: usize) -> usize {
+        if MOD_BIG_LEFT.with(|b| b.get()) > 0 && self.chance(1, 40) {
+            MOD_BIG_LEFT.with(|b| b.set(b.get() - 1));
+            // trace validation of a module is more than linear in its size: the quick tier stops at 65 elements, the
+            // thorough tier (VH_SCALE_MAX=300) goes on to the 8-bit boundary
+            let max = std::env::var("VH_SCALE_MAX").ok().and_then(|v| v.parse::<usize>().ok()).unwrap_or(65);
+            let cands: Vec<usize> = BIG_COUNTS.iter().cloned().filter(|c| *c <= max).collect();
+            *self.pick(&cands)
+        } else {
+            self.below(small)
+        }
+    }
 }
+pub const BIG_COUNTS: &[usize] = &[8, 9, 15, 16, 17, 31, 32, 33, 40, 63, 64, 65, 100, 127, 128, 129, 255, 256, 257, 300];
+thread_local! {
+    static INST_BIG_LEFT: std::cell::Cell<u32> = std::cell::Cell::new(0);
+    static MOD_BIG_LEFT: std::cell::Cell<u32> = std::cell::Cell::new(0);
+}
+pub fn scale_reset_inst() { INST_BIG_LEFT.with(|b| b.set(1)); }
+pub fn scale_reset_mod() { MOD_BIG_LEFT.with(|b| b.set(1)); }
+/// A string of exactly `n` bytes (ASCII letters; every 7th a two-byte character when `n` allows it).
+pub fn long_string(n: usize) -> String {
+    let mut s = String::with_capacity(n);
+    let mut k = 0usize;
+    while s.len() < n {
+        if k % 7 == 6 && s.len() + 2 <= n { s.push('\u{e9}'); } else { s.push((b'a' + (k % 26) as u8) as char); }
+        k += 1;
+    }
+    s
+}
+pub const LONG_LENGTHS: &[usize] = &[15, 16, 17, 31, 32, 33, 59, 60, 61, 62, 63, 64, 65, 66, 67, 68, 127, 128, 129, 252, 253, 254, 255, 256, 257, 511, 512, 1020, 1023, 1024, 1025];
 
 pub struct Out {
     w: std::io::BufWriter<std::fs::File>,
